@@ -60,6 +60,10 @@ cfg_client_or_server! {
 	pub mod middleware;
 }
 
+#[cfg(all(jsonrpsee_verif, any(feature = "server", feature = "async-client")))]
+#[allow(missing_docs, missing_debug_implementations)]
+pub mod verif;
+
 pub use async_trait::async_trait;
 pub use error::{RegisterMethodError, SubscriptionError};
 
